@@ -1,6 +1,7 @@
 #!/bin/bash
 # run every claimed check (quick unless $1 = thorough) and summarise
 tier=${1:-quick}
+mkdir -p "$(dirname "$0")/../work"
 cd "$(dirname "$0")/.."
 for p in $(python3 -c "
 import json; print(' '.join(c['property_id'] for c in json.load(open('MANIFEST.json'))['checks']))"); do
